@@ -30,3 +30,33 @@ Theorem C07_dml_order_sqlite :
   respects (delete_pos SQLite) (filter (dialect_has (delete_pos SQLite)) del_render_order) = true.
 Proof. split; [apply insert_order|split; [apply update_order|apply delete_order]]. Qed.
 Print Assumptions C07_dml_order_sqlite.
+
+(* SQLite's surface forms: what the SQLite writer omits or writes differently from the other dialects *)
+Require Import SQV.Model.Value.
+From Coq Require Import String.
+Open Scope list_scope.
+Theorem C07_sqlite_forms :
+  forall is_alpha T rq,
+  (forall l, rlock is_alpha SQLite T rq l = []) /\                         (* no locking clause *)
+  (forall hs, rhints SQLite hs = []) /\                                    (* no index hints *)
+  (forall cols, rdistinct SQLite (DDistinctOn cols) = []) /\               (* no DISTINCT ON *)
+  rdistinct SQLite DDistinctRow = [] /\                                    (* no DISTINCTROW *)
+  (forall smp, rsample SQLite smp = []) /\                                 (* no TABLESAMPLE *)
+  (forall ut s, exists kw, runion SQLite rq (ut, s) = wss kw ++ rq (QSelect s)) /\   (* bare set-operation operands *)
+  (forall row, rvalues_list SQLite [row] =
+     wss "VALUES " ++ wss "(" ++ sep_by comma (map (fun v => [WVal v]) row) ++ wss ")") /\   (* VALUES (..), no ROW *)
+  (forall e o n, rorder is_alpha SQLite T rq (OrderExpr e o (Some n)) =
+     rorder is_alpha SQLite T rq (OrderExpr e o None) ++
+     (match n with NLast => wss " NULLS LAST" | NFirst => wss " NULLS FIRST" end)).   (* native NULLS ordering *)
+Proof.
+  intros is_alpha T rq. repeat apply conj.
+  - intros l. apply lock_clause_not_on_sqlite.
+  - intros hs. apply index_hints_only_mysql. discriminate.
+  - intros cols. apply distinct_on_only_postgres. discriminate.
+  - apply distinctrow_only_mysql. discriminate.
+  - intros smp. apply table_sample_only_postgres. discriminate.
+  - intros ut s. destruct (set_operation_form rq SQLite ut s) as [kw H]. now exists kw.
+  - intros row. now rewrite (values_row_prefix SQLite row).
+  - intros e o n. now rewrite (nulls_ordering_form is_alpha T rq SQLite e o n).
+Qed.
+Print Assumptions C07_sqlite_forms.
